@@ -54,8 +54,10 @@ def gen_cases(rng, tier):
             hk = "hi" if intish else "h"
             sk = "si" if intish else "s"
             shape = rng.choice(["hh", "hh", "hs", "sh", "ph", "hp", "ps"])
-            if op in CMPS or op in ("within", "vs"):
+            if op in CMPS or op == "within":
                 shape = rng.choice(["hh", "hh", "hs", "ph", "hp", "ps"])   # methods: left is H or P
+            if op == "vs":
+                shape = rng.choice(["hh", "hs", "hp"])                     # P has no vs()
             l = gen_operand(rng, {"h": [hk], "s": [sk], "p": ["p"]}[shape[0]])
             rr = gen_operand(rng, {"h": [hk], "s": [sk], "p": ["p"]}[shape[1]])
             c = {"kind": "bin", "op": op, "l": l, "r": rr}
@@ -145,7 +147,21 @@ def _cop(case):
     return f"(Within {cq([0, 1])} {cq([0, 1])})"
 
 
+def _typed_pool_issue(case):
+    """bitwise operators distinguish Fraction(2) from 2; sums of Fraction dice can be integral-valued
+    Fractions, which the value-level model cannot tell apart: outside the model's domain"""
+    if case["op"] not in ("and", "or", "xor", "invert"):
+        return False
+    for key in ("l", "r", "a"):
+        x = case.get(key)
+        if x and "p" in x and any(o[1] != 1 for d in x["p"] for o, _ in d):
+            return True
+    return False
+
+
 def coq_check(case, r):
+    if _typed_pool_issue(case):
+        return None
     if "ok" in r:
         try:
             exp = f"(Ok {chist(r['ok'])})"
@@ -237,6 +253,8 @@ def _flat(x):
 
 def oracle(case):
     try:
+        if _typed_pool_issue(case):
+            return None
         if case["kind"] == "bin":
             op = case["op"]
             if op == "within" and Fraction(*case["lo"]) > Fraction(*case["hi"]):
